@@ -314,6 +314,8 @@ std::string SuppressionList::addSuppression(SuppressionList::Suppression suppres
         return "Failed to add suppression. Invalid glob pattern '" + suppression.fileName + "'.";
 
     mSuppressions.push_back(std::move(suppression));
+    VERIF_EV_OWN(mSuppressions.back().matched, "mSuppressions");
+    VERIF_EV_OWN(mSuppressions.back().checked, "mSuppressions");
 
     return "";
 }
